@@ -124,6 +124,23 @@ let dec_vlrs e n bytes =
     go (k - 1) rest' ((tok_of_assoc assoc ^ "#" ^ tok_of_bytes payload) :: acc) (consumed + hl + rl) in
   go n bytes [] 0
 
+(* dimensions as DimensionInfo holds them:  name:kind:num_bits:num_elements:T|F:x<hex of the description>:<offsets>:<scales>  joined
+   by ';' (- = none); offsets / scales: N = None, e = an empty array, else a comma list of binary64 bit patterns *)
+let string_of_hextok t = Stdlib.String.concat "" (List.map (fun zv -> Stdlib.String.make 1 (Char.chr (int_of_z zv))) (bytes_of_tok t))
+let opt_list_of_tok t = if t = "N" then None else if t = "e" then Some [] else Some (zlist_of_tok t)
+let dims_of_tok t = if t = "-" then [] else
+  List.map (fun e -> match Stdlib.String.split_on_char ':' e with
+    | [n; k; b; ne; st; ds; o; s] ->
+      (((((((coq_string_of n, z_of_string k), z_of_string b), z_of_string ne), st = "T"),
+         coq_string_of (string_of_hextok ds)), opt_list_of_tok o), opt_list_of_tok s)
+    | _ -> failwith ("bad dimension " ^ e)) (Stdlib.String.split_on_char ';' t)
+let grid_of_tok t = if t = "-" then [] else List.map zlist_of_tok (Stdlib.String.split_on_char ';' t)
+let tok_of_grid g = if g = [] then "-" else Stdlib.String.concat ";" (List.map tok_of_zlist g)
+let sel_of_tok t = if t = "-" then [] else
+  List.map (fun e -> match Stdlib.String.split_on_char ':' e with
+    | [i; k; v] -> ((nat_of_int (int_of_string i), nat_of_int (int_of_string k)), z_of_string v)
+    | _ -> failwith ("bad assignment " ^ e)) (Stdlib.String.split_on_char ';' t)
+
 let dispatch cmd a =
   let zi i = z_of_string a.(i) in
   let minor i = nat_of_int (int_of_string a.(i)) in
@@ -159,6 +176,16 @@ let dispatch cmd a =
                    | [i; r] -> edit_record file (zi 0) (zi 1) (z_of_string i) (bytes_of_tok r)
                    | _ -> failwith ("bad edit " ^ e)) (bytes_of_tok a.(2)) (split_on ';' a.(3)) in
                tok_of_bytes file
+  (* accepts <header format> <header dimensions> <record format> <record dimensions>: the hand-over of a record to a header
+     (LasWriter.write_points, LasAppender.append_points, LasData(header, points), LasData.points = ..) *)
+  | "accepts" -> tok_of_bool (handover_accepts (zi 0) (dims_of_tok a.(1)) (zi 2) (dims_of_tok a.(3)))
+  (* ebs_of_dims <dimensions>: the Extra Bytes descriptors the header declares for them *)
+  | "ebs_of_dims" -> (match ebs_of_dims (dims_of_tok a.(0)) with
+                      | Some l -> "ok " ^ (if l = [] then "-" else Stdlib.String.concat ";" (List.map (fun ((n, dt), opt) ->
+                                    string_of_coq n ^ ":" ^ string_of_z dt ^ ":" ^ string_of_z opt) l))
+                      | None -> "none")
+  (* assign <rows of stored values> <point:element:value;...>: the stored values of one extra dimension after the assignments *)
+  | "assign" -> tok_of_grid (assign_elems (grid_of_tok a.(0)) (sel_of_tok a.(1)))
   | "legacy_ok" -> tok_of_bool (spec_legacy_ok (zi 0) (zi 1) (zi 2))
   | "hdr_names" -> names_tok (spec_hdr_layout (minor 0))
   | "dec_hdr" -> dec_out (spec_dec_header (minor 0) (bytes_of_tok a.(1)))
